@@ -29,6 +29,7 @@ CONFIGS = [("on", 0), ("on", 0), ("off", 0), ("off", 0), ("on", 2)]       # case
 MUTATIONS = [
     "none", "none",
     "dup_cl_same", "cl_list_same", "dup_cl_conflict", "dup_cl_conflict_rev", "cl_list_conflict",
+    "cl_list_dup_then_conflict", "cl_list_dup_then_junk", "cl_field_then_list_conflict", "cl_three_fields_conflict_last",
     "cl_te", "te_cl", "cl_te_short",
     "te_ows", "te_tab", "te_case", "te_trailing_ws", "te_x_chunked", "te_two_headers_gzip_chunked",
     "te_chunked_x", "te_identity", "te_chunked_chunked", "te_two_headers_chunked", "te_chunkedx", "te_quoted",
@@ -129,6 +130,15 @@ def mutated(x, r, mut):
         return none(x.head("POST", name, [cl(n + len(SM)), cl(n)]) + B + SM)
     if mut == "cl_list_conflict":
         return none(x.head("POST", name, [b"Content-Length: %d, %d" % (n, n + len(SM))]) + B + SM)
+    # a conflicting/invalid member hidden BEHIND tolerated equal duplicates (every member must be examined)
+    if mut == "cl_list_dup_then_conflict":
+        return none(x.head("POST", name, [b"Content-Length: %d, %d, %d" % (n, n, n + len(SM))]) + B + SM)
+    if mut == "cl_list_dup_then_junk":
+        return none(x.head("POST", name, [b"Content-Length: %d, %d, %dx" % (n, n, n + len(SM))]) + B + SM)
+    if mut == "cl_field_then_list_conflict":
+        return none(x.head("POST", name, [cl(n), b"Content-Length: %d, %d" % (n, n + len(SM))]) + B + SM)
+    if mut == "cl_three_fields_conflict_last":
+        return none(x.head("POST", name, [cl(n), cl(n), cl(n + len(SM))]) + B + SM)
     # ---- CL + TE: RFC 9112 6.3 rule 3: Transfer-Encoding overrides (or reject)
     if mut == "cl_te":
         w = CH + SM
